@@ -11,3 +11,4 @@ def run(ck):
     filt.r_axis_consistency(ck, P, 'C18-R5')
     filt.r6_acceptance_domain(ck, P)
     filt.r8_coefficient_product_width(ck, P, 'C18-R8')
+    filt.r9_degenerate_phases(ck, P)
